@@ -136,7 +136,7 @@ pub fn unissued_liquidity_tokens(run: &Run, thorough: bool) {
 }
 
 /// Deposits and withdrawals of amounts near the maximum coin value (2^110, 2^100) into the built-in MEL/SYM pool, several per block.
-fn huge_liquidity(run: &Run, thorough: bool) {
+pub fn huge_liquidity(run: &Run, thorough: bool) {
     let rootn = root_huge(NetID::Custom02);
     let mut cfg = cfg_liquidity();
     cfg.mints = false;
